@@ -1308,6 +1308,21 @@ class QasmOutput:
         else:
             return None
 
+    def takes_parameters(self, qasm_name):
+        """
+        Check if the QASM gate is applied with a parameter list.
+
+        Parameters
+        ----------
+        qasm_name: str
+            QASM gate name, as returned by :meth:`qasm_name`.
+        """
+
+        if qasm_name in _PREDEFINED_GATE_SIGNATURES:
+            return _PREDEFINED_GATE_SIGNATURES[qasm_name][0] > 0
+        # gates defined by _qasm_defns without a parameter
+        return qasm_name not in ("sqrtnot", "cs", "ct", "swap")
+
     def is_defined(self, gate_name):
         """
         Check if QASM gate definition exists for QuTiP gate.
